@@ -1,0 +1,25 @@
+use crate::{
+    archetypes::Archetypes,
+    registry::Registry,
+    verif::ArchetypeDump,
+};
+use alloc::vec::Vec;
+
+impl<R> Archetypes<R>
+where
+    R: Registry,
+{
+    pub(crate) fn verif_dump(&self) -> (Vec<ArchetypeDump>, Vec<usize>, Vec<(usize, usize, usize)>) {
+        (
+            self.iter().map(|archetype| archetype.verif_dump()).collect(),
+            self.type_id_lookup
+                .values()
+                .map(|identifier| identifier.verif_addr())
+                .collect(),
+            self.foreign_identifier_lookup
+                .iter()
+                .map(|(key, identifier)| (key.as_ptr() as usize, key.len(), identifier.verif_addr()))
+                .collect(),
+        )
+    }
+}
